@@ -98,6 +98,9 @@ pub struct SampleStreamSource {
     source_closed: Arc<AtomicBool>,
     active_senders: Arc<std::sync::atomic::AtomicUsize>,
     drop_count: Arc<AtomicU64>,
+    /// Serialises producers: the ring is single-producer, but sources are `Clone`
+    /// and `Sync`, so several threads may send at once.
+    push_lock: Arc<SyncMutex<()>>,
 }
 
 fn next_track_id() -> Arc<str> {
@@ -146,6 +149,7 @@ pub fn sample_track(
         source_closed,
         active_senders,
         drop_count,
+        push_lock: Arc::new(SyncMutex::new(())),
     };
     (source, track, feedback_rx)
 }
@@ -163,6 +167,7 @@ impl Clone for SampleStreamSource {
             source_closed: self.source_closed.clone(),
             active_senders: self.active_senders.clone(),
             drop_count: self.drop_count.clone(),
+            push_lock: self.push_lock.clone(),
         }
     }
 }
@@ -173,6 +178,7 @@ impl SampleStreamSource {
             return Err(MediaError::Closed);
         }
 
+        let _push_guard = self.push_lock.lock();
         let sample = match self.queue.push(sample) {
             Ok(()) => {
                 self.notify.notify_one();
@@ -258,9 +264,12 @@ impl SampleStreamSource {
             return Err(MediaError::Closed);
         }
 
-        self.queue
-            .push(sample)
-            .map_err(|_| MediaError::WouldBlock)?;
+        {
+            let _push_guard = self.push_lock.lock();
+            self.queue
+                .push(sample)
+                .map_err(|_| MediaError::WouldBlock)?;
+        }
         self.notify.notify_one();
         Ok(())
     }
